@@ -25,7 +25,9 @@ RULE = ("seeded history plans over the 17 estimators (ops: new/set_params/fit/re
         "restart/ambient RNG perturbation/ARPACK reseed or forced non-convergence/"
         "preprocessor fault/fit interrupted at a drawn metric-learn line event (crash point) and then repeated); a run is non-trivial when at least one successful fit was "
         "compared with its fresh-object reference; distinct = distinct (op kind:estimator) "
-        "sequences")
+        "sequences.  The first 34 (thorough: 340) run indices of every batch ENUMERATE crash points: for "
+        "each of the 17 estimators, an interruption at the first, a middle and the last line event of every "
+        "function its fit passes through, each followed by a repetition of the fit")
 REAL_VS_STUB = dict(real=["metric_learn (all of it)", "numpy", "scipy (ARPACK, L-BFGS-B)",
                           "scikit-learn (KMeans, PCA, LDA, NearestNeighbors, graphical lasso)",
                           "pickle"],
@@ -401,7 +403,110 @@ def fitted_attr(est, name):
   return vars(est).get(name, None)
 
 
+# ---------------------------------------------------- crash-point enumeration
+
+ENUM_PER_TIER = {"quick": 34, "thorough": 340}
+_ENUM = {}
+
+
+def _enum_index(seed, tier):
+  import os
+  from ..core import run_seed
+  key = (os.environ.get("VERIF_SEED", "0"), tier)
+  if key not in _ENUM:
+    vs = int(os.environ.get("VERIF_SEED", "0") or 0)
+    _ENUM[key] = {run_seed(vs, ID, i): i for i in range(ENUM_PER_TIER.get(tier, 34))}
+  return _ENUM[key].get(seed)
+
+
+def gen_crash_enum(seed, idx):
+  """The first run indices of every batch enumerate crash points instead of
+  drawing them: one estimator (all 17 in turn), one dataset, and an
+  interruption at the first, a middle and the last line event of *every
+  function* the fit passes through, each followed by a repetition of the fit."""
+  from ..estimators import ALL
+  from ..histgen import gen_dataset, params_for, _data
+  from ..core import substream
+  r = substream(seed, "crash-enum")
+  name = ALL[idx % len(ALL)]
+  p, desc = None, None
+  for _ in range(30):
+    desc = gen_dataset(r, dmax=4)
+    desc["n"] = min(desc["n"], 30)
+    desc["tuples"] = min(desc.get("tuples", 12), 16)
+    p = params_for(name, r, _data(desc))
+    if p is not None:
+      break
+  if p is None:
+    p = {}
+  if idx < len(ALL):
+    # first pass over the estimators: the documented default structure (generated
+    # basis, 'auto' init, identity prior); later passes: options as drawn
+    for k_ in ("basis", "n_basis", "init", "prior"):
+      p.pop(k_, None)
+    if "n_components" in p and name not in ("LFDA",):
+      p["n_components"] = None
+  for k_ in ("max_iter",):
+    if isinstance(p.get(k_), int) and not name.startswith("SCML"):
+      p[k_] = min(p[k_], 5)
+  return dict(kind="crash_enum", run_seed=seed, cls=name, datasets={"D0": desc}, params=p,
+              exc=r.choice(["KeyboardInterrupt", "MemoryError"]), ops=[],
+              world=dict(jumpy_clock=False, fresh_restarts=0))
+
+
+def _enum_points(plan):
+  """Runs in a pristine process: one complete fit under the counting tracer;
+  returns the enumerated crash points (first / middle / last line event of every
+  function the fit passes through) and the number of line events."""
+  base = [dict(op="new", h=0, cls=plan["cls"], params=plan["params"])]
+  probe = Machine(dict(plan, ops=list(base)), []).run()
+  h = probe.handles.get(0)
+  if h is None or h.est is None:
+    return [], 0
+  D, via, args, kwargs = probe.build_fit(h, dict(op="fit", h=0, data="D0", via="formed"))
+  with world.observed(), world.LineInterrupter() as li0:
+    try:
+      h.est.fit(*args, **kwargs)
+    except (Exception, world.LineInterrupter.StopCount):
+      pass
+  points = []
+  for lst in li0.by_func.values():
+    for k_ in (lst[0], lst[len(lst) // 2], lst[-1]):
+      if k_ not in points:
+        points.append(int(k_))
+  return points, int(li0.n)
+
+
+def _derive_enum_ops(plan):
+  """new; then for every enumerated crash point: (new seed;) interrupted fit;
+  fit.  No fit has succeeded on the object - or in the process - before the
+  first interruption, and every pair uses a random_state of its own, so that
+  state keyed on (data, seed) is never complete when the interruption comes."""
+  base = [dict(op="new", h=0, cls=plan["cls"], params=plan["params"])]
+  try:
+    st, val = world.pristine().call(_enum_points, plan)
+  except Exception:
+    st, val = "exc", None
+  if st != "ok":
+    return base + [dict(op="fit", h=0, data="D0", via="formed")], 0
+  points, n = val
+  if plan.get("only") is not None:
+    points = [k_ for k_ in points if k_ == plan["only"]]
+  seeded = "random_state" in plan["params"]
+  ops = list(base)
+  for j_, k_ in enumerate(points):
+    if seeded:
+      ops.append(dict(op="set_params", h=0, nondata=True,
+                      params={"random_state": int(h64("enum-seed", plan["run_seed"], k_) % 10**6)}))
+    ops.append(dict(op="fit", h=0, data="D0", via="formed", interrupt=dict(at=int(k_), n=int(n), exc=plan["exc"])))
+    ops.append(dict(op="fit", h=0, data="D0", via="formed"))
+  return ops, len(points)
+
+
 def gen_plan(seed, tier):
+  idx = _enum_index(seed, tier)
+  if idx is not None:
+    return gen_crash_enum(seed, idx)
   # unknown=True: refits of supervised learners alternate between the full
   # and the partially unknown label vector on the same points
   return gen_history(seed, tier, fresh_p=0.004 if tier == "thorough" else 0.003,
@@ -410,6 +515,20 @@ def gen_plan(seed, tier):
 
 def run_plan(plan):
   orc = Oracle()
+  if plan.get("kind") == "crash_enum":
+    ops, npts = _derive_enum_ops(plan)
+    full = dict(plan, ops=ops)
+    m = Machine(full, [orc]).run()
+    m.cov["crash_points_enumerated"] += npts
+    m.cov["crash_enum_runs"] += 1
+    if m.violation is not None and m.violation.get("op") is not None and m.violation["op"] < len(ops):
+      # remember which crash point it was: the shrinker keeps only that one
+      for o_ in reversed(ops[:m.violation["op"] + 1]):
+        if o_.get("interrupt"):
+          m.violation["enum_at"] = o_["interrupt"]["at"]
+          break
+    res = m.result(shape="%016x" % h64("enum|%s" % plan["cls"]), nontrivial=orc.refs > 0)
+    return res
   m = Machine(plan, [orc]).run()
   shape = "|".join("%s:%s" % (e.get("op"), e.get("cls") or e.get("method") or "")
                    for e in m.events)
@@ -417,4 +536,15 @@ def run_plan(plan):
 
 
 def shrink_moves(plan, violation):
-  return history_shrink_moves(plan, violation)
+  if plan.get("kind") == "crash_enum":
+    if plan.get("only") is None and violation.get("enum_at") is not None:
+      p = copy.deepcopy(plan)
+      p["only"] = violation["enum_at"]
+      yield p
+    for k_ in sorted(plan.get("params", {})):
+      p = copy.deepcopy(plan)
+      del p["params"][k_]
+      yield p
+    return
+  for p in history_shrink_moves(plan, violation):
+    yield p
